@@ -127,10 +127,12 @@ pub fn inverse_rle(
             }
 
             let (zig_x, zig_y) = DEZIGZAG_MAPPING[zigzag_index];
-            let dequantized_level = quant as i16 * ((2 * tcoef.level.abs()) + 1);
+            // Computed in `i32`: 31 * (2 * 1023 + 1) does not fit into an `i16`.
+            let dequantized_level = quant as i32 * ((2 * tcoef.level.abs() as i32) + 1);
             let parity = if quant % 2 == 1 { 0 } else { -1 };
 
-            let value = (tcoef.level.signum() * (dequantized_level + parity)).clamp(-2048, 2047);
+            let value = (tcoef.level.signum() as i32 * (dequantized_level + parity))
+                .clamp(-2048, 2047) as i16;
             let val = value.into();
             block_data[zig_y as usize][zig_x as usize] = val;
             zigzag_index += 1;
